@@ -55,6 +55,8 @@ def main(argv=None):
             prog = Program(args.repo) if args.repo else Program()
             run.census = prog.check_floor()
             mod.check(run, prog)
+            from . import coherence
+            coherence.check(run, prog, pid)
             if args.tier == "thorough" and hasattr(mod, "thorough"):
                 mod.thorough(run, prog)
         except AnalysisError as e:
